@@ -98,6 +98,14 @@ def fault_atoms():
         [["on_disconnect_open"], ["close"], ["open"]],
         [["on_disconnect_open"], ["slow_conn", 1.0], ["close"], ["open"], ["status"]],
         [["open"]],                        # open_socket() while open
+        # many faults of one kind over the life of one socket
+        [["badcrc"], ["adv", 2.5]] * 12,
+        [["garbage"], ["adv", 2.5], ["status"], ["undecodable_value"], ["adv", 2.5]] * 6,
+        # a write error, a slow reconnection, and the application gives up on the command
+        [["net", "accept", 3.0], ["wfail", 1], ["send", "zone_ctrl", "idem", "t1"], ["adv", 1.0],
+         ["cancel_sends"]],
+        [["net", "accept", 3.0], ["wfail", 2], ["send", "ac_ctrl", "long", "t1"],
+         ["send", "zone_ctrl", "idem", "t2"], ["adv", 0.5], ["cancel_sends"], ["adv", 0.5]],
         # the link is reset from the send side / by reset_connection() while the receive loop
         # is held up in a subscriber, which returns when the next connection already exists
         [["slow_msg", 3.0], ["status"], ["adv", 0.5], ["wfail", 1],
